@@ -169,6 +169,117 @@ def spec_vs_model(cid, sl, ml):
                                       "(Track.spec_track_sound excludes this: extraction or driver defect)" % (cid, i, k, a, b))
     return n
 
+
+# ======================================================================================
+# property oracles on the IMPLEMENTATION's own trace
+# A difference between model and implementation on a key the property does not fix exactly (capacity values,
+# allocator / backend requests, raw storage) shows that the correspondence is broken, not that the property
+# fails.  For these keys the check asks the property's own constraints of the implementation's trace: if they
+# are violated the case is a failing input; if not, the violation is reported with no-failing-input-found.
+# ======================================================================================
+REPR_KEYS = ("cap", "ev_alloc", "ev_backend", "raw")
+ISIZE_MAX = (1 << 63) - 1
+
+def _nums(v):
+    return [None if x in ("-", "") else int(x) for x in v.split(",")] if v else []
+def _evs(l, kinds):
+    return [e for e in l.get("ev", "").split(",") if e and e[0] in kinds]
+
+def oracle_c10(cfg, steps, isteps):
+    """len <= cap; reserve / reserve_exact / with_capacity / shrink promises; growth by push is geometric"""
+    prev = None
+    for i, (st, l) in enumerate(zip(steps, isteps)):
+        t = st.split()
+        if t and t[0].startswith("fuse="):
+            t = t[1:]
+        lens, caps = _nums(l.get("len", "")), _nums(l.get("cap", ""))
+        for a, b in zip(lens, caps):
+            if a is not None and b is not None and a > b:
+                return "step %d: len %d > capacity %d" % (i, a, b)
+        plens, pcaps = (_nums(prev.get("len", "")), _nums(prev.get("cap", ""))) if prev else ([], [])
+        def at(xs, v): return xs[v] if v < len(xs) else None
+        if t and t[0] in ("reserve", "reserve_exact") and l.get("out") == "0":
+            v, n = int(t[1]), int(t[2])
+            ln, cp, pcp = at(lens, v), at(caps, v), at(pcaps, v)
+            if None not in (ln, cp):
+                if cp < ln + n:
+                    return "step %d: %s(%d) returned with capacity %d < len %d + %d" % (i, t[0], n, cp, ln, n)
+                if pcp is not None and pcp >= ln + n and (cp != pcp or _evs(l, "ARFXZ")):
+                    return "step %d: %s(%d) changed capacity %d -> %d / touched the storage although it was satisfied" % (i, t[0], n, pcp, cp)
+        if t and t[0] in ("reserve", "reserve_exact") and l.get("out") == "0":
+            v, n = int(t[1]), int(t[2])
+            ln = at(plens, v)
+            if ln is not None and ln + n > gen.USIZE_MAX:
+                return "step %d: %s(%d) returned although len + n is not representable" % (i, t[0], n)
+        if t and t[0] in ("shrink_to_fit", "shrink_to") and l.get("out") == "0":
+            v = int(t[1]); m = int(t[2]) if t[0] == "shrink_to" else 0
+            ln, cp, pcp = at(lens, v), at(caps, v), at(pcaps, v)
+            if None not in (ln, cp, pcp):
+                bound = max(ln, m)
+                if cp > pcp:
+                    return "step %d: %s increased the capacity %d -> %d" % (i, t[0], pcp, cp)
+                if cp < min(pcp, bound):
+                    return "step %d: %s went below %d (capacity %d -> %d)" % (i, t[0], min(pcp, bound), pcp, cp)
+                if cfg["be"] == "heap" and cp != min(pcp, bound):
+                    return "step %d: %s on the heap backend ended at %d, not at min(%d, %d)" % (i, t[0], cp, pcp, bound)
+        if t and t[0] == "withcap" and l.get("out") == "0":
+            v, n = int(t[1]), int(t[3])
+            cp = at(caps, v)
+            if cp is not None and cp < n:
+                return "step %d: with_capacity(%d) gave capacity %d" % (i, n, cp)
+        if t and t[0] in ("push", "insert") and l.get("out") == "0":
+            v = int(t[2])
+            cp, pcp = at(caps, v), at(pcaps, v)
+            if cfg["be"] == "heap" and None not in (cp, pcp) and cp != pcp and pcp >= 4 and cp * 4 < pcp * 5:
+                return "step %d: growth by push from %d to %d is not geometric" % (i, pcp, cp)
+        prev = l
+    return ""
+
+def oracle_c11(cfg, steps, isteps):
+    """stack backends: the stated capacity, never the heap"""
+    cap = gen.fixed_cap(cfg["be"], cfg["sz"])
+    for i, l in enumerate(isteps):
+        if _evs(l, "ARF"):
+            return "step %d: heap traffic %s on a stack backend" % (i, ",".join(_evs(l, "ARF")))
+        for cp in _nums(l.get("cap", "")):
+            if cp is not None and cap is not None and cp != cap:
+                return "step %d: capacity %d, stated capacity %d" % (i, cp, cap)
+    return ""
+
+def oracle_c18(cfg, steps, isteps):
+    """heap: at most one allocation per vector, large enough and aligned, none while capacity x size is 0, valid layouts"""
+    live = []      # sizes of live allocations
+    sz, al = cfg["sz"], cfg["al"]
+    for i, l in enumerate(isteps):
+        for e in _evs(l, "ARF"):
+            try:
+                if e[0] == "A":
+                    a, b = e[1:].split(":"); a, b = int(a), int(b)
+                    if a > ISIZE_MAX or a == 0: return "step %d: allocation request of %d bytes" % (i, a)
+                    if b != al: return "step %d: allocation aligned to %d, element alignment %d" % (i, b, al)
+                    live.append(a)
+                elif e[0] == "R":
+                    old, rest = e[1:].split(":"); b, new = rest.split(">"); old, b, new = int(old), int(b), int(new)
+                    if new > ISIZE_MAX or new == 0: return "step %d: reallocation request to %d bytes" % (i, new)
+                    if old not in live: return "step %d: reallocation of a block of %d bytes that is not live" % (i, old)
+                    live.remove(old); live.append(new)
+                else:
+                    a, b = e[1:].split(":"); a = int(a)
+                    if a not in live: return "step %d: release of a block of %d bytes that is not live" % (i, a)
+                    live.remove(a)
+            except ValueError:
+                return "step %d: unreadable allocator event %r" % (i, e)
+        caps = [c for c in _nums(l.get("cap", "")) if c is not None]
+        if l.get("out") in ("0", "1"):
+            need = sorted([c * sz for c in caps if c * sz > 0])
+            if len(live) > len(need):
+                return "step %d: %d live allocations for %d vectors that need storage" % (i, len(live), len(need))
+            if len(live) == len(need) and any(a < b for a, b in zip(sorted(live), need)):
+                return "step %d: allocations %s too small for capacities x size %s" % (i, sorted(live), need)
+    return ""
+
+ORACLES = {"C10": oracle_c10, "C11": oracle_c11, "C18": oracle_c18}
+
 def nontrivial_steps(isteps):
     """count steps that changed state, returned a value or produced an event"""
     n = 0
@@ -375,10 +486,26 @@ def run_check(pid, tier, seed, replay, t0):
                 if sl and tracked == len(steps):
                     stats["spec_cases"] += 1
                 f = compare_case(pid, spec, cid, cfg, steps, fam, ml, il)
+                if f is None and pid in ORACLES:
+                    # the property's own constraints, asked of the implementation's trace alone
+                    try:
+                        msg = ORACLES[pid](cfg, steps, isteps)
+                    except Exception as ex:
+                        msg = "oracle could not read the implementation's trace: %r" % (ex,)
+                    stats["oracle_cases"] = stats.get("oracle_cases", 0) + 1
+                    if msg:
+                        f = dict(step=min(len(steps), len(isteps)) - 1 if steps else 0, key="property-oracle",
+                                 expected="the property's constraints hold on the implementation's trace", observed=msg, oracle=msg)
                 if f is None:
                     stats["validated"] += 1
                 else:
                     f.update(cfg=cfg, steps=steps, family=fam, cid=cid)
+                    if f["key"] in REPR_KEYS:
+                        orc = ORACLES.get(pid)
+                        try:
+                            f["oracle"] = orc(cfg, steps, isteps) if orc else None
+                        except Exception as ex:      # an unreadable trace is itself a failing input
+                            f["oracle"] = "oracle could not read the implementation's trace: %r" % (ex,)
                     sp = sl[f["step"]] if f["step"] < len(sl) else None
                     if sp is not None:
                         # the failing step lies in the fragment of the history theorems: what std::vec::Vec's list
@@ -433,7 +560,11 @@ def run_check(pid, tier, seed, replay, t0):
         open_thms = [t for t in thms if not t[1]]
     # ---------------- decision
     seen_sig = {}
+    repr_only = []       # model and implementation differ on a representation key, the property's constraints hold
     for f in failures:
+        if f["key"] in REPR_KEYS and not f.get("oracle"):
+            repr_only.append(f)
+            continue
         sig = failure_signature(f)
         hit = None
         for k in known:
@@ -456,6 +587,8 @@ def run_check(pid, tier, seed, replay, t0):
                f["expected"][:120], f["observed"][:120]))
         if f.get("spec_predicts"):
             print("    the list specification (WorldSpec.spec_step, proven equal to the model on this step) predicts: " + f["spec_predicts"][:200])
+        if f.get("oracle"):
+            print("    the property's own constraint fails on the implementation's trace: " + f["oracle"][:200])
     for text, path in static_viol:
         print("  failing input: " + text)
         violations.append("VIOLATION property=%s replay=%s" % (pid, path))
@@ -472,6 +605,15 @@ def run_check(pid, tier, seed, replay, t0):
         broken.append("theorems not closed under the global context: " + ", ".join(t[0] for t in open_thms))
     if build_failure is not None:
         broken.append("correspondence corr.%s: %s\n%s" % (pid, build_failure.what, build_failure.output[-1500:]))
+    if repr_only:
+        by_key = collections.Counter((f["family"], f["key"]) for f in repr_only)
+        broken.append("correspondence " + ", ".join("corr.%s.%s differs on %s in %d cases" % (pid, fam, k, n) for (fam, k), n in sorted(by_key.items()))
+                      + ": the model no longer describes what the implementation does on a quantity the property does not fix exactly; "
+                      + ("the property's own constraints were checked on the implementation's traces of these cases and hold" if pid in ORACLES
+                         else "no failing input for the property itself was found")
+                      + "; example: cfg=%s step=%r expected=%s observed=%s" % (core.cfg_key(repr_only[0]["cfg"]),
+                            repr_only[0]["steps"][repr_only[0]["step"]] if repr_only[0]["step"] < len(repr_only[0]["steps"]) else "end",
+                            repr_only[0]["expected"][:80], repr_only[0]["observed"][:80]))
     if broken and not violations:
         d = os.path.join(ROOT, "replays")
         os.makedirs(d, exist_ok=True)
@@ -513,6 +655,7 @@ def run_check(pid, tier, seed, replay, t0):
             families={k: v for k, v in dist.items()}, projection=spec["keys"],
             input_distribution=dict(ops=dict(stats["ops"]), outcomes=dict(stats["outs"]),
                                     configurations=len(stats["cfgs"])),
+            cases_checked_by_property_oracle=stats.get("oracle_cases", 0),
             steps_inside_history_fragment=stats["spec_steps"], cases_entirely_inside_history_fragment=stats["spec_cases"],
             history_fragment_rule="a step is inside the fragment when no panic fuse is armed, WorldSpec.spec_step is defined on the abstraction of the "
                                   "machine world and the environment assumption admissibleb holds (AV.Proofs.Track.spec_track); for these steps the "
